@@ -133,6 +133,20 @@ def r3_r4_get_iter(chk, repo):
             SEEN = b["L_s"]
     chk.check(SEEN is not None, "C10.R3", gi, None, "no explicit error when the request returned no chunks", site_text="get_iter: `if not <seen a chunk>: raise` at the end")
     SEEN = SEEN or "seen_a_chunk"
+    # alternative range arguments are converted to an absolute range before anything uses the range
+    conv = [n for n in cfg.stmt_nodes() if isinstance(n.stmt, ast.Assign) and norm(n.stmt.targets[0]) == "time_range" and isinstance(n.stmt.value, ast.Call) and (call_name(n.stmt.value) or "").endswith("to_absolute_time_range")]
+    chk.check(len(conv) == 1, "C10.R4", gi, None, "get_iter does not convert seconds_range / time_within into an absolute time_range at one place", site_text="get_iter: time_range = self.to_absolute_time_range(...)")
+    if len(conv) == 1:
+        dom = cfg.dominators("n")
+        for n in cfg.nodes:
+            if n is conv[0]:
+                continue
+            exprs = [n.test] if n.kind == "guard" and n.test is not None else ([n.stmt] if n.kind == "stmt" and not isinstance(n.stmt, COMPOUND) else [])
+            uses = [x for e in exprs for x in ast.walk(e) if isinstance(x, ast.Name) and x.id == "time_range" and isinstance(x.ctx, ast.Load)]
+            if uses and n in dom and conv[0] not in dom[n]:
+                chk.fail("C10.R4", gi, n.stmt if n.kind == "stmt" else n.owner, "`time_range` is used before seconds_range / time_within have been converted into it: for those requests the planner (no saving, availability errors, chunk pruning) or the row filter sees no range at all",
+                         site={"function": gi.qualname, "rule": "range normalised before use", "use": head(n.stmt if n.kind == "stmt" else n.owner, 60)})
+        chk.ok("C10.R4", "get_iter: every use of time_range comes after the conversion")
     rs = [n for n in cfg.stmt_nodes() if isinstance(n.stmt, ast.Raise) and (SEEN, False) in cfg.guard_facts(n) and enclosing(n.stmt, (ast.ExceptHandler,)) is None]
     chk.check(len(rs) >= 2, "C10.R3", gi, None, "no explicit error when the request returned no chunks", site_text="get_iter: raise if not seen_a_chunk (with and without time range)")
     tests = [n for n in cfg.stmt_nodes() if isinstance(n.stmt, ast.If) and norm(n.stmt.test) == f"not {SEEN}"]
@@ -215,6 +229,8 @@ def r6_arguments(chk, repo):
 
 
 WITNESSES = [
+    W("range arguments converted after planning", "C10.R4", CONTEXT,
+      "seen_a_chunk = False\n        generator = processor(", "time_range = self.to_absolute_time_range(run_id=run_id, targets=targets_list, time_range=time_range, seconds_range=seconds_range, time_within=time_within)\n        seen_a_chunk = False\n        generator = processor("),
     W("pruning with < on the left bound", "C10.R1", COMMON,
       "if chunk_info[\"end\"] <= time_range[0] or time_range[1] <= chunk_info[\"start\"]:", "if chunk_info[\"end\"] < time_range[0] or time_range[1] <= chunk_info[\"start\"]:"),
     W("pruning drops chunks ending inside the range", "C10.R1", COMMON,
